@@ -21,7 +21,11 @@
 (*   FlowDefBeforeData    a buffer reaches a sink only if that sink has    *)
 (*                        accepted the pipe's current flow definition      *)
 (*                        since it was connected and since the flow        *)
-(*                        definition last changed                          *)
+(*                        definition last changed; and a buffer that says  *)
+(*                        which flow it belongs to (fields fl, now, below) *)
+(*                        and whose flow is still the one set on the input *)
+(*                        only if the sink has accepted a definition of    *)
+(*                        that flow since it was connected                 *)
 (*   NoDataWhileRejected  no buffer reaches a sink whose last answer to    *)
 (*                        this pipe's flow definition was a refusal        *)
 (*                                                                         *)
@@ -45,7 +49,17 @@
 (*                                   by the application or by a probe      *)
 (*       "SinkFd"  s fd acc          sink s received set_flow_def(fd) and  *)
 (*                                   accepted / refused it                 *)
-(*       "SinkIn"  s                 sink s received a buffer              *)
+(*                                   (fl = the identity of the flow that   *)
+(*                                   this definition describes, "" = none  *)
+(*                                   that the observer can name)           *)
+(*       "SinkIn"  s fl now          sink s received a buffer (fl = the    *)
+(*                                   identity of the flow that the buffer  *)
+(*                                   belonged to when the application fed  *)
+(*                                   it: the definition that its input     *)
+(*                                   pipe had last accepted; "" = unknown: *)
+(*                                   a buffer made by the pipe itself;     *)
+(*                                   now = that definition is still the    *)
+(*                                   last one the input pipe accepted)     *)
 (*       "SinkReg" / "SinkCtl" s     register_request / other control      *)
 (*       "SinkUnreg" s               unregister_request                    *)
 (*       "GotFd"   p fd              upipe_get_flow_def(p) ("gets output   *)
@@ -75,18 +89,19 @@ MonInit == [phase |-> [p \in PipeIds |-> "none"],   \* none, new, ready, dead
             conn  |-> [s \in SinkIds |-> 0],        \* pipe whose output is s
             link  |-> [s \in SinkIds |-> "none"],   \* none, ok, stale, rejected
             cur   |-> [p \in PipeIds |-> "?"],      \* flow definition last announced by p
+            seen  |-> [s \in SinkIds |-> {}],       \* flows whose definition s accepted since it was connected
             bad   |-> {}]
 
 Flag(m, prop) == [m EXCEPT !.bad = @ \cup {prop}]
 
 \* ---- constructors -------------------------------------------------------
 E(e, p, s, k, fd, acc, die) ==
-  [e |-> e, p |-> p, s |-> s, k |-> k, fd |-> fd, acc |-> acc, die |-> die]
+  [e |-> e, p |-> p, s |-> s, k |-> k, fd |-> fd, acc |-> acc, die |-> die, fl |-> "", now |-> FALSE]
 EvP(p, k, fd)       == E("Ev", p, 0, k, fd, FALSE, <<>>)
 EvNew(p)            == E("New", p, 0, "", "", FALSE, <<>>)
 EvOut(p, s)         == E("Out", p, s, "", "", FALSE, <<>>)
-EvSinkFd(s, fd, a)  == E("SinkFd", 0, s, "", fd, a, <<>>)
-EvSinkIn(s)         == E("SinkIn", 0, s, "", "", FALSE, <<>>)
+EvSinkFd(s, fd, a)  == [E("SinkFd", 0, s, "", fd, a, <<>>) EXCEPT !.fl = fd]
+EvSinkIn(s, fl)     == [E("SinkIn", 0, s, "", "", FALSE, <<>>) EXCEPT !.fl = fl, !.now = TRUE]
 EvGotFd(p, fd)      == E("GotFd", p, 0, "", fd, FALSE, <<>>)
 EvRel(p)            == E("Rel", p, 0, "", "", FALSE, <<>>)
 EvEnd(die)          == E("End", 0, 0, "", "", FALSE, die)
@@ -117,24 +132,37 @@ MonOut(m, p, s) ==
   LET same == s # 0 /\ m.conn[s] = p IN
   [m EXCEPT !.conn = [t \in SinkIds |-> IF t = s THEN p ELSE IF @[t] = p THEN 0 ELSE @[t]],
             !.link = [t \in SinkIds |-> IF t = s THEN (IF same THEN @[t] ELSE "none")
-                                        ELSE IF m.conn[t] = p THEN "none" ELSE @[t]]]
+                                        ELSE IF m.conn[t] = p THEN "none" ELSE @[t]],
+            !.seen = [t \in SinkIds |-> IF t = s THEN (IF same THEN @[t] ELSE {})
+                                        ELSE IF m.conn[t] = p THEN {} ELSE @[t]]]
 
 \* the pipe that is talking to sink s, if it is one under test
 Talker(m, s) == m.conn[s]
 
-MonSinkFd(m, s, fd, acc) ==
+MonSinkFd(m, s, fd, acc, fl) ==
   LET p == Talker(m, s) IN
   IF p = 0 THEN m
   ELSE IF m.phase[p] = "dead" THEN Flag(m, "DeadLast")
   ELSE [m EXCEPT !.link[s] = IF ~acc THEN "rejected"
-                             ELSE IF m.cur[p] = "?" \/ m.cur[p] = fd THEN "ok" ELSE "stale"]
+                             ELSE IF m.cur[p] = "?" \/ m.cur[p] = fd THEN "ok" ELSE "stale",
+                 !.seen[s] = IF acc THEN @ \cup {fl} ELSE @]
 
-MonSinkIn(m, s) ==
+\* A buffer of the flow that is set on the input RIGHT NOW, reaching a sink that
+\* has not accepted a definition of that flow since it was connected, is read
+\* with the wrong definition: the pipe changed flows without telling anybody.
+\* Judged only when the observer can name the flows: the buffer carries an
+\* identity and every definition that the sink accepted had one ("" = it cannot
+\* - pipes that build their own buffers or their own definitions).  Buffers of
+\* an OLDER flow (now = FALSE: the application has set another flow on the input
+\* since it fed them) are not judged: pipes that hold, cut or gather buffers
+\* present one definition at a time, the latest (DESIGN.md 6).
+MonSinkIn(m, s, fl, now) ==
   LET p == Talker(m, s) IN
   IF p = 0 THEN m
   ELSE IF m.phase[p] = "dead" THEN Flag(m, "DeadLast")
   ELSE IF m.link[s] = "rejected" THEN Flag(m, "NoDataWhileRejected")
   ELSE IF m.link[s] # "ok" THEN Flag(m, "FlowDefBeforeData")
+  ELSE IF now /\ fl # "" /\ "" \notin m.seen[s] /\ fl \notin m.seen[s] THEN Flag(m, "FlowDefBeforeData")
   ELSE m
 
 MonSinkTouch(m, s) ==
@@ -150,8 +178,8 @@ MonStep(m, ev) ==
     [] ev.e = "Ev"      -> MonEv(m, ev.p, ev.k, ev.fd)
     [] ev.e = "Out"     -> MonOut(m, ev.p, ev.s)
     [] ev.e = "GotFd"   -> MonGotFd(m, ev.p, ev.fd)
-    [] ev.e = "SinkFd"  -> MonSinkFd(m, ev.s, ev.fd, ev.acc)
-    [] ev.e = "SinkIn"  -> MonSinkIn(m, ev.s)
+    [] ev.e = "SinkFd"  -> MonSinkFd(m, ev.s, ev.fd, ev.acc, ev.fl)
+    [] ev.e = "SinkIn"  -> MonSinkIn(m, ev.s, ev.fl, ev.now)
     [] ev.e = "SinkReg" -> MonSinkTouch(m, ev.s)
     [] ev.e = "SinkCtl" -> MonSinkTouch(m, ev.s)
     [] ev.e = "End"     -> MonEnd(m, ev.die)
